@@ -53,11 +53,43 @@ func vPath(i int) string {
 	return "/p3"
 }
 
-func vConnID(t int) string {
+// every (re-)connection of a target has a new connection / relation id: two generations alternate
+func vConnID(t int, gen bool) string {
 	if t == 0 {
-		return "conn-t1"
+		if gen {
+			return "conn-t1-b"
+		}
+		return "conn-t1-a"
 	}
-	return "conn-t2"
+	if gen {
+		return "conn-t2-b"
+	}
+	return "conn-t2-a"
+}
+
+// masterCode: 0 = no master, 1 = generation a, 2 = generation b, 3 = some other id
+func masterCode(t int, id string) uint8 {
+	switch id {
+	case "":
+		return 0
+	case vConnID(t, false):
+		return 1
+	case vConnID(t, true):
+		return 2
+	}
+	return 3
+}
+
+func masterID(t int, code uint8) string {
+	switch code {
+	case 1:
+		return vConnID(t, false)
+	case 2:
+		return vConnID(t, true)
+	case 3:
+		return "conn-other"
+	}
+	return ""
 }
 
 // ---- flat state --------------------------------------------------------------------------------
@@ -110,8 +142,8 @@ type Cfg struct {
 	Applied       uint8
 	Term          uint8
 	AppliedTerm   uint8
-	Master        bool // Status.Mastership.Master == the target's connection/relation id
-	AppliedMaster bool
+	Master        uint8 // Status.Mastership.Master: see masterCode
+	AppliedMaster uint8
 	State         int32
 	Values        [NX]PV
 	AppliedVals   [NX]PV
@@ -120,6 +152,7 @@ type Cfg struct {
 // Dev is the device behind a target's connection
 type Dev struct {
 	Connected   bool   // connection + CONTROLS relation exist
+	Gen         bool   // generation of the current / next connection id
 	Vals        [NX]PV // device contents per leaf (Index = transaction whose value it holds)
 	MaxElection uint8  // highest election id seen
 	Sets        uint8  // number of accepted Sets (ghost)
@@ -492,20 +525,16 @@ func (s *cfgStore) Get(ctx context.Context, id configapi.ConfigurationID) (*conf
 	c.Status.Applied.Values = pvMap(&rec.AppliedVals)
 	if WithSync {
 		c.Status.Mastership.Term = configapi.MastershipTerm(rec.Term)
-		if rec.Master {
-			c.Status.Mastership.Master = vConnID(t)
-		}
+		c.Status.Mastership.Master = masterID(t, rec.Master)
 		c.Status.Applied.Mastership.Term = configapi.MastershipTerm(rec.AppliedTerm)
-		if rec.AppliedMaster {
-			c.Status.Applied.Mastership.Master = vConnID(t)
-		}
+		c.Status.Applied.Mastership.Master = masterID(t, rec.AppliedMaster)
 	} else {
 		// without the mastership / configuration controllers: the connection is the master, term 1, device in sync
 		c.Status.Mastership.Term = 1
 		c.Status.Applied.Mastership.Term = 1
 		if S.Devs[t].Connected {
-			c.Status.Mastership.Master = vConnID(t)
-			c.Status.Applied.Mastership.Master = vConnID(t)
+			c.Status.Mastership.Master = vConnID(t, S.Devs[t].Gen)
+			c.Status.Applied.Mastership.Master = vConnID(t, S.Devs[t].Gen)
 		}
 	}
 	return c, nil
@@ -538,8 +567,8 @@ func cfgFlat(t int, c *configapi.Configuration) {
 	if WithSync {
 		rec.Term = uint8(c.Status.Mastership.Term)
 		rec.AppliedTerm = uint8(c.Status.Applied.Mastership.Term)
-		rec.Master = c.Status.Mastership.Master != ""
-		rec.AppliedMaster = c.Status.Applied.Mastership.Master != ""
+		rec.Master = masterCode(t, c.Status.Mastership.Master)
+		rec.AppliedMaster = masterCode(t, c.Status.Applied.Mastership.Master)
 	}
 	if WithVersions {
 		rec.Version++
@@ -602,7 +631,7 @@ func (s *cfgStore) UpdateStatus(ctx context.Context, c *configapi.Configuration)
 type topoStore struct{ topo.Store }
 
 func vRelation(t int) *topoapi.Object {
-	return &topoapi.Object{ID: topoapi.ID(vConnID(t)), Type: topoapi.Object_RELATION, Obj: &topoapi.Object_Relation{Relation: &topoapi.Relation{
+	return &topoapi.Object{ID: topoapi.ID(vConnID(t, S.Devs[t].Gen)), Type: topoapi.Object_RELATION, Obj: &topoapi.Object_Relation{Relation: &topoapi.Relation{
 		KindID: topoapi.CONTROLS, SrcEntityID: controllerutils.GetOnosConfigID(), TgtEntityID: topoapi.ID(vTarget(t))}}}
 }
 
@@ -616,7 +645,7 @@ func (s *topoStore) Get(ctx context.Context, id topoapi.ID) (*topoapi.Object, er
 			_ = o.SetAspect(&topoapi.Configurable{Type: string(vType), Version: string(vVer)})
 			return o, nil
 		}
-		if id == topoapi.ID(vConnID(t)) && S.Devs[t].Connected {
+		if id == topoapi.ID(vConnID(t, S.Devs[t].Gen)) && S.Devs[t].Connected {
 			return vRelation(t), nil
 		}
 	}
@@ -643,7 +672,7 @@ type vConn struct {
 	t int
 }
 
-func (c *vConn) ID() gnmi.ConnID { return gnmi.ConnID(vConnID(c.t)) }
+func (c *vConn) ID() gnmi.ConnID { return gnmi.ConnID(vConnID(c.t, S.Devs[c.t].Gen)) }
 
 func electionOf(r *gpb.SetRequest) uint8 {
 	for _, e := range r.Extension {
@@ -737,7 +766,7 @@ type connMgr struct{ gnmi.ConnManager }
 
 func (m *connMgr) Get(ctx context.Context, id gnmi.ConnID) (gnmi.Conn, bool) {
 	for t := 0; t < NT; t++ {
-		if id == gnmi.ConnID(vConnID(t)) && S.Devs[t].Connected {
+		if id == gnmi.ConnID(vConnID(t, S.Devs[t].Gen)) && S.Devs[t].Connected {
 			return &vConn{t: t}, true
 		}
 	}
@@ -816,9 +845,13 @@ func Step(choice int) {
 		}
 		if WithFaults && choice == ChDisc+t && S.Devs[t].Connected {
 			S.Devs[t].Connected = false
+			S.Devs[t].Gen = !S.Devs[t].Gen // the next connection gets a new id
 			S.Faults++
 		}
 		if WithFaults && choice == ChRestart+t {
+			if S.Devs[t].Connected {
+				S.Devs[t].Gen = !S.Devs[t].Gen
+			}
 			S.Devs[t].Connected = false
 			S.Devs[t].Vals = [NX]PV{}
 			S.Devs[t].MaxElection = 0
